@@ -72,9 +72,9 @@ func nestedMonitorRules(c *Ctx, rule string, restrict func(class string) bool) {
 		allInstrs(f, func(i ssa.Instruction) {
 			switch x := i.(type) {
 			case *ssa.Call:
-				calls[f] = append(calls[f], lo.repoCallees(x)...)
+				calls[f] = append(calls[f], lo.calleesCtx(f, x)...)
 			case *ssa.Defer:
-				calls[f] = append(calls[f], lo.repoCallees(x)...)
+				calls[f] = append(calls[f], lo.calleesCtx(f, x)...)
 			}
 		})
 	}
@@ -122,7 +122,7 @@ func nestedMonitorRules(c *Ctx, rule string, restrict func(class string) bool) {
 						}
 					}
 				} else {
-					for _, g := range lo.repoCallees(x) {
+					for _, g := range lo.calleesCtx(f, x) {
 						reach = append(reach, waits[g]...)
 					}
 				}
@@ -138,7 +138,9 @@ func nestedMonitorRules(c *Ctx, rule string, restrict func(class string) bool) {
 					if restrict != nil && !restrict(cl) {
 						continue
 					}
-					construct := fmt.Sprintf("wait in %s [%s] while %s is held by %s", shortFn(w.fn), w.guard, cl, shortFn(topFn(f)))
+					// keyed by the condition variable, the guard's constant and the held lock class — not by the names
+					// of the functions involved, which helper extraction changes
+					construct := fmt.Sprintf("wait on %s [%s] while %s is held", strings.TrimSuffix(w.ownClass, ".L"), w.guard, cl)
 					if _, dup := hits[construct]; !dup {
 						hits[construct] = hit{construct, c.at(i), fmt.Sprintf("%s holds %s at %s and reaches the wait at %s via %s; Wait releases only %s, so %s stays held until another goroutine satisfies the wait — every function that needs %s (teardown included) blocks behind it",
 							shortFn(topFn(f)), cl, c.at(i), c.at(w.site), w.via, w.ownClass, cl, cl)}
